@@ -30,8 +30,14 @@ func init() {
 			"memory operands: one representative shape per addressing class (C02 covers the address itself)",
 		},
 		OutsideBounds: []string{"literals of more than 10 digits", "hex and character literals as symbolic values", "segment overrides, SHORT/NEAR/FAR keywords on non-branches", "mnemonics not listed (their silent mis-assembly is C07's subject)", "quick tier: the decimal-text-to-number step of the grammar action for literals (thorough tier includes it)"},
-		Quick:    tierSpec{Harnesses: []harnessSpec{{Func: gp + "internal/zzverif.VC01", Discover: 3, Reach: []string{"c01.decode.accepted"}}}},
-		Thorough: tierSpec{Harnesses: []harnessSpec{{Func: gp + "internal/zzverif.VC01", Discover: 4, Params: map[string]int{"allregs": 1}, Reach: []string{"c01.decode.accepted"}}}},
+		Quick: tierSpec{Harnesses: []harnessSpec{
+			{Func: gp + "internal/zzverif.VC01", Discover: 3, Reach: []string{"c01.decode.accepted"}},
+			{Func: gp + "internal/zzverif.VC01NoOp", Discover: 2, Reach: []string{"c01n.accepted"}},
+		}},
+		Thorough: tierSpec{Harnesses: []harnessSpec{
+			{Func: gp + "internal/zzverif.VC01", Discover: 4, Params: map[string]int{"allregs": 1}, Reach: []string{"c01.decode.accepted"}},
+			{Func: gp + "internal/zzverif.VC01NoOp", Discover: 2, Reach: []string{"c01n.accepted"}},
+		}},
 	}
 }
 
